@@ -8,6 +8,7 @@ Model: `viewEquals` / `typeEquals` / `tryCopy` / `arenaCopy` in Emboss/Model/Vie
 import Emboss.Lemmas.Equals
 import Emboss.Lemmas.Locality
 import Emboss.Properties.C01
+import Emboss.Lemmas.ViewRefLogEq
 namespace Emboss.View
 
 /-- `Equals` is symmetric (for two views of the same structure type). -/
@@ -314,6 +315,75 @@ example :
     Emboss.ViewRef.viewWF { sd := exBits, params := some [], st := .bits (some 165) 8 } = true ∧
     (∀ f ∈ exBits.fields, need exNest 4 exBits [f.name] = true) := by
   decide
+
+/-! ### … recursively through fields of structure / `bits` type
+
+`LogEq m k` (Spec/ViewRef.lean) is C20's statement with the recursion spelled out: same
+parameters, same presence of every physical field, equal values of present scalar fields, and for
+a present field of structure / `bits` type the two views *R assigns to the field* (`SubViewR`:
+inner definition, argument values, sub-window — the premises of R's rule `sub`) are logically
+equal one level down.  The theorem holds for every module of the refinement fragment without
+array fields (`ModOK`; arrays: the generated `Equals` compares clamped element counts, which R
+defines for complete arrays only — stays with the Python reference and the post-copy follow-ups),
+every pair of views of a structure of the module, every fuel `k` (= nesting depth explored, the
+same on both sides; `k = 0` is "out of fuel" = `false` on both). -/
+
+open Emboss.ViewRef in
+theorem C20_equals_iff_logical_nested_partial (m : Module) (n : Nat) (h : ModOK m n) (k : Nat)
+    (wa wb : SView) (hmem : wa.sd ∈ m.structs) (hsd : wb.sd = wa.sd)
+    (hwa : viewWF wa = true) (hwb : viewWF wb = true) :
+    viewEquals (G m n) m k wa wb = true ↔ LogEq m k wa wb :=
+  viewEquals_iff_logEq m n h k wa wb hmem hsd hwa hwb
+
+/-- `struct Out2: 0 [+1] UInt n / if n > 0: n [+2] In(n) in / let v = in.s` (C01's nested example
+without its array) -/
+def exOuter2 : StructDef :=
+  { exOuter with name := "Out2", fields := exOuter.fields.take 3 }
+
+def exNest2 : Module := { structs := [exOuter2, exInner, exBits] }
+
+open Emboss.ViewRef in
+theorem exNest2_ok : ModOK exNest2 6 where
+  ref := by decide
+  wf := by decide
+  loc := by decide
+  noarr := by decide
+  fuel := by decide
+  uniq := by
+    intro sd hsd
+    simp only [exNest2, List.mem_cons, List.not_mem_nil, or_false] at hsd
+    rcases hsd with rfl | rfl | rfl <;> intro f hf
+    · simp only [exOuter2, exOuter, List.take, List.mem_cons, List.not_mem_nil, or_false] at hf
+      rcases hf with rfl | rfl | rfl <;> rfl
+    · simp only [exInner, List.mem_cons, List.not_mem_nil, or_false] at hf
+      rcases hf with rfl | rfl | rfl | rfl | rfl <;> rfl
+    · simp only [exBits, List.mem_cons, List.not_mem_nil, or_false] at hf
+      rcases hf with rfl | rfl | rfl <;> rfl
+
+/-- non-vacuity: `02 ff 07 a5` vs `02 00 07 a5` (byte 1 is covered by no field: equal, through the
+nested `In(2)` and its `bits` container) vs `02 ff 07 a4` (the flag inside the container inside
+the nested structure differs: not equal); hence, by the theorem, `LogEq` holds / fails. -/
+example :
+    viewEquals (G exNest2 6) exNest2 3 (rootView exOuter2 [] [2, 255, 7, 165])
+      (rootView exOuter2 [] [2, 0, 7, 165]) = true ∧
+    viewEquals (G exNest2 6) exNest2 3 (rootView exOuter2 [] [2, 255, 7, 165])
+      (rootView exOuter2 [] [2, 255, 7, 164]) = false := by
+  decide
+
+open Emboss.ViewRef in
+example : LogEq exNest2 3 (rootView exOuter2 [] [2, 255, 7, 165]) (rootView exOuter2 [] [2, 0, 7, 165]) ∧
+    ¬ LogEq exNest2 3 (rootView exOuter2 [] [2, 255, 7, 165]) (rootView exOuter2 [] [2, 255, 7, 164]) := by
+  have hmem : ∀ d, (rootView exOuter2 [] d).sd ∈ exNest2.structs := fun _ => List.mem_cons_self
+  constructor
+  · exact (C20_equals_iff_logical_nested_partial exNest2 6 exNest2_ok 3
+      (rootView exOuter2 [] [2, 255, 7, 165]) (rootView exOuter2 [] [2, 0, 7, 165])
+      (hmem _) rfl (by decide) (by decide)).mp (by decide)
+  · intro hc
+    have := (C20_equals_iff_logical_nested_partial exNest2 6 exNest2_ok 3
+      (rootView exOuter2 [] [2, 255, 7, 165]) (rootView exOuter2 [] [2, 255, 7, 164])
+      (hmem _) rfl (by decide) (by decide)).mpr hc
+    revert this
+    decide
 
 /-! ### reflexivity of Equals on Ok views
 
